@@ -36,6 +36,15 @@ def plan(tier):
     return {"ncases": 12000, "nshards": 16, "budget_s": 1800, "floor": 40000, "stall_s": 300}
 
 
+VALID_EXTRA = [
+    "program ve_block_type\n  implicit none\n  integer :: n\n  n = 1\n  block\n    type :: bt\n      integer :: c\n    end type bt\n    type(bt) :: v\n    v%c = n\n  end block\nend program ve_block_type\n",
+    "module ve_abs\n  implicit none\n  type, abstract :: shape\n  contains\n    procedure(area_if), deferred :: area\n  end type shape\n  abstract interface\n    function area_if(self) result(a)\n      import :: shape\n      class(shape), intent(in) :: self\n      real :: a\n    end function area_if\n  end interface\n"
+    "  type, abstract, extends(shape) :: polygon\n    integer :: nsides\n  end type polygon\n  type, extends(polygon) :: square\n    real :: edge\n  contains\n    procedure :: area => square_area\n  end type square\ncontains\n  function square_area(self) result(a)\n    class(square), intent(in) :: self\n    real :: a\n    a = self%edge ** 2\n  end function square_area\nend module ve_abs\n",
+    "module ve_enum\n  implicit none\n  enum, bind(c)\n    enumerator :: red = 1, green\n    enumerator blue\n  end enum\n  interface operator(.plus.)\n    module procedure addi\n  end interface\ncontains\n  integer function addi(a, b)\n    integer, intent(in) :: a, b\n    addi = a + b\n  end function addi\nend module ve_enum\n",
+    "module ve_sel\n  implicit none\n  type :: t\n    integer :: c\n  end type t\ncontains\n  subroutine s(x)\n    class(*), intent(in) :: x\n    integer :: k\n    select type (y => x)\n    type is (t)\n      k = y%c\n    type is (integer)\n      k = y\n    class default\n      k = 0\n    end select\n    associate (z => k)\n      k = z + 1\n    end associate\n  end subroutine s\nend module ve_sel\n",
+]
+
+
 def intrinsic_members():
     d = json.load(open(os.path.join(REPO, "fortls", "parsers", "internal", "intrinsic.modules.json")))
     out = []
@@ -51,6 +60,14 @@ def all_diags(srv, ws, files):
     for f in files:
         d, ev = srv.diagnostics(ws.uri(f))
         fails = [e for e in ev if e[0] == "err" or (e[0] == "notif" and e[1] == "window/showMessage" and "failed" in str(e[2].get("message")))]
+        # a second pass over the unchanged file must publish the same list, and no entry twice
+        d2, ev2 = srv.diagnostics(ws.uri(f))
+        key = lambda x: json.dumps(x, sort_keys=True)
+        if d is not None and d2 is not None:
+            if sorted(map(key, d)) != sorted(map(key, d2)):
+                fails.append(("notif", "vf/monitor", {"message": f"second diagnostics pass differs: {len(d)} entries, then {len(d2)}"}))
+            if len(set(map(key, d))) != len(d):
+                fails.append(("notif", "vf/monitor", {"message": "the same diagnostic is published twice in one list"}))
         out[f] = (d, fails)
     return out
 
@@ -238,6 +255,17 @@ def run_case(ctx, i, rng):
         for k, (mod, name) in enumerate(mem):
             files.setdefault(f"im_{mod}.f90", []).append(f"subroutine s_{k}()\n  use {mod}, only: {name}\n  implicit none\nend subroutine s_{k}\n")
         files = {f: "".join(v) for f, v in files.items()}
+        # the same names declared as local variables of a procedure whose host uses the intrinsic module (masking is a warning, never a failure)
+        byname = {}
+        for mod, name in mem:
+            byname.setdefault(mod, []).append(name)
+        for mod, names in byname.items():
+            uniq = sorted({n.lower() for n in names if re.fullmatch(r"[A-Za-z]\w*", n)})
+            files[f"mask_{mod}.f90"] = (f"module mask_{mod}\n  use {mod}\n  implicit none\ncontains\n" +
+                                        "".join(f"  subroutine mk_{k}()\n    integer :: {n}\n    {n} = 1\n  end subroutine mk_{k}\n" for k, n in enumerate(uniq)) + f"end module mask_{mod}\n")
+        # hand-written valid programs with features the generator lacks
+        for k, t in enumerate(VALID_EXTRA):
+            files[f"valid_extra_{k}.f90"] = t
         ws, srv, ev = H.start(files, nthreads=2)
         try:
             for f, (d, fails) in all_diags(srv, ws, files).items():
